@@ -653,8 +653,44 @@ def random_design(seed):
     used = set()
     info = {"anon": 0, "wrapped": 0, "modules": 0}
 
+    def control(m):
+        # one control-flow construct (Switch / If chain / FSM) whose branches drive registers in several domains that
+        # the enclosing block may not have used yet: the order of the per-domain statements it produces is part of
+        # the elaboration result
+        kind = rng.choice(["switch", "if", "fsm"])
+        n = rng.randint(2, 4)
+        test = rng.choice(avail)
+        tgts = []
+        for _ in range(n):
+            d = rng.choice(doms + ["comb"])
+            tgts.append((Signal(rng.randint(1, 4), name=rng.choice(_GEN_NAMES)), d, rng.choice(avail)))
+            if d != "comb":
+                used.add(d)
+        if kind == "switch":
+            with m.Switch(test):
+                for k, (s, d, a) in enumerate(tgts):
+                    with (m.Case(k % (1 << len(test))) if k + 1 < n or k >= (1 << len(test)) else m.Default()):
+                        m.d[d] += s.eq(a)
+        elif kind == "if":
+            for k, (s, d, a) in enumerate(tgts):
+                with (m.If(test[0]) if k == 0 else m.Elif(a.any()) if k + 1 < n else m.Else()):
+                    m.d[d] += s.eq(a)
+        else:
+            fd = rng.choice(doms)
+            used.add(fd)
+            with m.FSM(domain=fd, name="fsm"):
+                for k, (s, d, a) in enumerate(tgts):
+                    with m.State("S%d" % k):
+                        m.d[d] += s.eq(a)
+                        with m.If(test[0]):
+                            m.next = "S%d" % ((k + 1) % n)
+        avail.extend(s for s, _d, _a in tgts)
+
     def fill(m, depth):
         info["modules"] += 1
+        pre = rng.random()
+        if pre < 0.35:
+            control(m)
         for _ in range(rng.randint(1, 3)):
             s = Signal(rng.randint(1, 4), name=rng.choice(_GEN_NAMES))
             d = rng.choice(doms + ["comb"])
@@ -663,6 +699,8 @@ def random_design(seed):
             if d != "comb":
                 used.add(d)
             avail.append(s)
+        if 0.35 <= pre < 0.55:
+            control(m)
         if depth < 2:
             for k in range(rng.randint(0, 3 if depth == 0 else 2)):
                 sub = Module()
